@@ -58,6 +58,20 @@ func Harness_C03_qualified_literals() {
 	verifCover("end")
 }
 
+func Harness_C03_type_expressions() {
+	s := symBuf("s", 1)
+	r := mkTyRec([]int{1}, s)
+	var f frt.Tuple2[[]int, string] = r.F
+	var g frt.Tuple3[int, []string, bool] = r.G
+	var h func(frt.Tuple2[[]int, string]) int = r.H
+	var a TyUni = New_TyUni_TyA(f)
+	var b TyUni = New_TyUni_TyB(frt.NewTuple2(1, []string{s}))
+	_, isA := a.(TyUni_TyA)
+	_, isB := b.(TyUni_TyB)
+	verifAssert(f.E1 == s && g.E1[0] == s && h(f) == 7 && isA && isB, "field and payload types: []T*U is ([]T)*U, T*[]U*V, ([]T*U)->V")
+	verifCover("end")
+}
+
 func Harness_C03_unions() {
 	x := verifInt("x")
 	var u U = U_P{Value: x}
